@@ -28,6 +28,13 @@ ASSUMPTIONS = [
 ]
 
 ADDABLE = ("collections.Counter", "collections.deque", "fractions.Fraction", "decimal.Decimal")
+# additions that are only ever *resolved* (never called): new members of other allow-listed
+# modules and of the numpy >= 2 spelling of an allow-listed module
+ADDABLE_RESOLVE_ONLY = (
+    "numpy._core.multiarray._reconstruct", "numpy._core.multiarray.scalar", "numpy.core.multiarray.scalar",
+    "torch._utils._rebuild_parameter", "argparse.ArgumentParser", "copyreg.__newobj__", "_io.StringIO",
+    "numpy.int64", "torch.ComplexFloatStorage",
+)
 BASE_NAMES = ("collections.OrderedDict", "collections.defaultdict")
 NEVER = ("verif_sink.sink",)
 ENTRY = ("pickle.load", "pickle.loads", "_pickle.load", "_pickle.loads")
@@ -58,6 +65,8 @@ def restore_all():
 
 def probe_bytes(dotted):
     module, name = dotted.rsplit(".", 1)
+    if dotted in ADDABLE_RESOLVE_ONLY:
+        return f"c{module}\n{name}\n.".encode()
     return f"c{module}\n{name}\n)R.".encode()
 
 
@@ -84,7 +93,8 @@ def do_probe(entry, dotted):
     except UnsafeFileError as e:
         out = ("blocked", str(e)[:100])
     except Exception as e:  # noqa: BLE001
-        out = ("error", repr(e))
+        # permitted by the environment; the stock resolution/call itself failed
+        out = ("allowed", repr(e))
     log = list(verif_sink.LOG)
     verif_sink.reset()
     return out + (log,)
@@ -102,10 +112,15 @@ def do_construct_probe(adds, dotted):
     except UnsafeFileError as e:
         out = ("blocked", str(e)[:100])
     except Exception as e:  # noqa: BLE001
-        out = ("error", repr(e))
+        out = ("allowed", repr(e))
     log = list(verif_sink.LOG)
     verif_sink.reset()
     return out + (log,)
+
+
+def in_base(dotted):
+    module, name = dotted.rsplit(".", 1)
+    return name in import_snapshot().get(module, {})
 
 
 class Model:
@@ -116,11 +131,11 @@ class Model:
     def expect_hooked(self, dotted):
         if not self.active:
             return "allowed"  # stock pickle
-        return "allowed" if dotted in BASE_NAMES or dotted in self.current else "blocked"
+        return "allowed" if in_base(dotted) or dotted in self.current else "blocked"
 
     @staticmethod
     def expect_constructed(adds, dotted):
-        return "allowed" if dotted in BASE_NAMES or dotted in adds else "blocked"
+        return "allowed" if in_base(dotted) or dotted in adds else "blocked"
 
 
 def step(model, st):
@@ -195,8 +210,8 @@ def _machine(res, holder):
     from hypothesis import strategies as st
     from hypothesis.stateful import RuleBasedStateMachine, rule
 
-    adds = st.lists(st.sampled_from(ADDABLE), max_size=3, unique=True).map(tuple)
-    names = st.sampled_from(BASE_NAMES + ADDABLE + ADDABLE + NEVER)
+    adds = st.lists(st.sampled_from(ADDABLE + ADDABLE + ADDABLE_RESOLVE_ONLY), max_size=3, unique=True).map(tuple)
+    names = st.sampled_from(BASE_NAMES + ADDABLE + ADDABLE + NEVER + ADDABLE_RESOLVE_ONLY)
 
     class Env(RuleBasedStateMachine):
         def __init__(self):
